@@ -323,34 +323,39 @@ def guards(rep, prog):
             rep.ok("GUARD-NUMBER")
         else:
             rep.fail("GUARD-NUMBER", "number|GUARD|%s" % cls, "number() returns %s" % (d,))
-    rep.rule("GUARD-LENGTH", 2, "Version::parse rejects inputs longer than MAX_LENGTH before parsing and parses all others")
-    try:
-        rows = E.entry_table(prog, "Version::parse")
-    except Inconclusive as e:
-        rep.inconc("Version::parse: " + e.reason, e.where)
-        return
+    rep.rule("GUARD-LENGTH", 2, "Version::parse — and <Version as FromStr>::from_str, the entry point of str::parse and serde — reject "
+                                "inputs longer than MAX_LENGTH before parsing and parse all others")
     maxlen = prog.consts.get("MAX_LENGTH", 256)
-    seen = {}
-    if any(r["status"] == "inconclusive" for r in rows):
-        for r in rows:
-            if r["status"] == "inconclusive":
-                rep.inconc("Version::parse: " + r["error"].reason, r["error"].where)
-                break
-        return
-    for r in rows:
-        if r["status"] != "ok":
+    for key in ("Version::parse", "<Version as std::str::FromStr>::from_str"):
+        if not prog.has_body(key):
+            if key == "Version::parse":
+                rep.inconc("Version::parse not found")
             continue
-        long = r["len"] > maxlen
-        parsed = bool(r["parse_calls"])
-        seen.setdefault(long, set()).add(parsed)
-    if seen.get(True) == {False}:
-        rep.ok("GUARD-LENGTH")
-    else:
-        rep.fail("GUARD-LENGTH", "Version::parse|GUARD-LENGTH|over-long input parsed", "inputs longer than MAX_LENGTH reach the grammar")
-    if seen.get(False) == {True}:
-        rep.ok("GUARD-LENGTH")
-    else:
-        rep.fail("GUARD-LENGTH", "Version::parse|GUARD-LENGTH|short input rejected", "inputs of length <= MAX_LENGTH do not all reach the grammar")
+        try:
+            rows = E.entry_table(prog, key)
+        except Inconclusive as e:
+            rep.inconc("%s: %s" % (key, e.reason), e.where)
+            continue
+        seen = {}
+        bad = [r for r in rows if r["status"] == "inconclusive"]
+        if bad:
+            rep.inconc("%s: %s" % (key, bad[0]["error"].reason), bad[0]["error"].where)
+            continue
+        for r in rows:
+            if r["status"] != "ok":
+                continue
+            long = r["len"] > maxlen
+            parsed = bool(r["parse_calls"])
+            seen.setdefault(long, set()).add(parsed)
+        if seen.get(True) == {False}:
+            rep.ok("GUARD-LENGTH")
+        else:
+            rep.fail("GUARD-LENGTH", "%s|GUARD-LENGTH|over-long input parsed" % key, "inputs longer than MAX_LENGTH reach the grammar through %s" % key,
+                     example="a 257-byte version through str::parse::<Version>() / serde" if "FromStr" in key else None)
+        if seen.get(False) == {True}:
+            rep.ok("GUARD-LENGTH")
+        else:
+            rep.fail("GUARD-LENGTH", "%s|GUARD-LENGTH|short input rejected" % key, "inputs of length <= MAX_LENGTH do not all reach the grammar through %s" % key)
 
 
 def serde_delegation(ctx, rep):
